@@ -773,31 +773,52 @@ func unfoldCase(r *vh.Run, g graph, o1, o2 types.Object, n int) {
 	r.Case("Unfold", []string{g.ser(), ser(o1), ser(o2), vh.Int(int64(n))}, vh.Bool(u.same(n, o1, o2)))
 }
 
-// contentDupCase: optimizeContentStreamUsage with o1 cached as object 1 and o2 offered as
-// object 2; true when it proposes to replace 2 by 1.
-func contentDupCase(r *vh.Run, o1, o2 types.Object) {
+// contentDupCase: optimizeContentStreamUsage with o1 cached as object 1001 and o2 offered as
+// object 1002 (several runs: Go map order); T when it proposes to replace 1002 by 1001.
+func contentDupCase(r *vh.Run, g graph, o1, o2 types.Object) {
 	sd1, ok1 := o1.(types.StreamDict)
 	sd2, ok2 := o2.(types.StreamDict)
 	if !ok1 || !ok2 {
 		return
 	}
+	m := &mirror{g: g}
+	m.eq(sd2, sd1, nil, 0)
+	if m.over {
+		r.Count("contentdup:unbounded-recursion-possible")
+		return
+	}
 	l1, l2 := int64(len(sd1.Raw)), int64(len(sd2.Raw))
 	sd1.StreamLength, sd2.StreamLength = &l1, &l2
-	res := func() (res string) {
-		defer func() {
-			if e := recover(); e != nil {
-				res = "panic"
+	seen := map[string]bool{}
+	for i := 0; i < 4; i++ {
+		res := func() (res string) {
+			defer func() {
+				if e := recover(); e != nil {
+					res = "P"
+				}
+			}()
+			c1, c2 := sd1, sd2
+			ctx := &model.Context{XRefTable: g.xref(), Optimize: &model.OptimizationContext{
+				ContentStreamCache: map[int]*types.StreamDict{1001: &c1}}}
+			ir, err := pdfcpu.VerifOptimizeContentStreamUsage(ctx, &c2, 1002)
+			switch {
+			case err != nil:
+				return "E"
+			case ir != nil && int(ir.ObjectNumber) == 1001:
+				return "T"
 			}
+			return "F"
 		}()
-		ctx := &model.Context{XRefTable: graph{1: sd1, 2: sd2}.xref(), Optimize: &model.OptimizationContext{
-			ContentStreamCache: map[int]*types.StreamDict{1: &sd1}}}
-		ir, err := pdfcpu.VerifOptimizeContentStreamUsage(ctx, &sd2, 2)
-		if err != nil {
-			return "err"
-		}
-		return vh.Bool(ir != nil && int(ir.ObjectNumber) == 1)
-	}()
-	r.Case("ContentDup", []string{ser(o1), ser(o2)}, res)
+		seen[res] = true
+	}
+	ks := []string{}
+	for k := range seen {
+		ks = append(ks, k)
+	}
+	sort.Strings(ks)
+	obs := strings.Join(ks, ",")
+	r.Count("contentdup:" + obs)
+	r.Case("ContentDup", []string{g.ser(), ser(o1), ser(o2), obs}, "consistent")
 }
 
 func ref(nr int) types.Object { return *types.NewIndirectRef(nr, 0) }
@@ -854,7 +875,8 @@ func fixedGraphs(r *vh.Run) {
 	checkPair(r, g2, ref(3), g2[3], nil, "mixed-cycle")
 	for _, raw1 := range [][]byte{nil, {}, {1}, {1, 2}, {2, 1}} {
 		for _, raw2 := range [][]byte{nil, {}, {1}, {1, 2}, {1, 3}} {
-			contentDupCase(r, types.StreamDict{Dict: types.Dict{}, Raw: raw1}, types.StreamDict{Dict: types.Dict{"Filter": types.Name("ASCIIHexDecode")}, Raw: raw2})
+			contentDupCase(r, graph{}, types.StreamDict{Dict: types.Dict{}, Raw: raw1}, types.StreamDict{Dict: types.Dict{"Filter": types.Name("ASCIIHexDecode")}, Raw: raw2})
+			contentDupCase(r, graph{}, types.StreamDict{Dict: types.Dict{}, Raw: raw1}, types.StreamDict{Dict: types.Dict{}, Raw: raw2})
 		}
 	}
 	// caller-supplied pairs (K only).  Only even lengths: with an odd-length slice the real
@@ -899,7 +921,7 @@ func randomGraphs(r *vh.Run, count int) {
 			}
 			checkPair(r, g, ref(a), ref(b), nil, label+"-ref")
 			checkPair(r, g, g[a], g[b], nil, label+"-direct")
-			contentDupCase(r, g[a], g[b])
+			contentDupCase(r, g, g[a], g[b])
 			if r.Rand.Intn(3) == 0 {
 				checkPair(r, g, ref(a), g[b], nil, label+"-mixed")
 			}
